@@ -16,4 +16,7 @@ pub assume_specification<T>[ core::mem::drop::<T> ](x: T)
 // ---- TRUSTED: mem::replace stores the new value and returns the old one
 pub assume_specification<T>[ core::mem::replace::<T> ](dest: &mut T, src: T) -> (r: T)
     ensures *final(dest) == src, r == *old(dest);
+// ---- TRUSTED: Result::unwrap_or (std: the Ok payload, else the given default)
+pub assume_specification<T: core::marker::Destruct, E: core::marker::Destruct>[ core::result::Result::<T, E>::unwrap_or ](r: core::result::Result<T, E>, d: T) -> (o: T)
+    ensures o == (match r { Ok(v) => v, Err(_) => d });
 }
